@@ -4,7 +4,7 @@
 (R) every transition TLC explored is replayed on a REAL Agent/Messaging with REAL posting threads that are advanced one
     yield point at a time (vlib/stepthreads.py), comparing the projection of the real objects after every step;
 (T) the observed histories are judged by TLC (Judge_C18)."""
-import json, queue, random
+import time, json, queue, random
 from ..common import Verdict, seed, scratch, MachineryError
 from .. import tlc, replay as RP
 from ..agentrt import AgentWorld
@@ -25,6 +25,7 @@ CONSTANTS Posters = {1, 2}
  Types = {5, 10, 20}
  Recheck = %s
  Repoll = %s
+ Ordered = %s
 INVARIANT HandledOnce
 INVARIANT PriorityRespected
 INVARIANT SenderFifo
@@ -39,9 +40,21 @@ NEXT_ALLOWED = {"begin": {"lookup", "begin"}, "lookup": {"put", "sub", "begin"},
 
 
 class Rec(MessagePassingComputation):
+    """records a message when the agent hands it to the computation (Agent._handle_message -> on_message): a computation that is
+    registered but not started yet keeps it and gets it again, re-injected, when it starts - that second delivery is C19's
+    subject and is not recorded"""
+
     def __init__(self, name, on_handled):
         super().__init__(name)
-        self._msg_handlers["m"] = lambda s, m, t: on_handled(name, s, m)
+        self._seen = set()
+        self._on_handled = on_handled
+        self._msg_handlers["m"] = lambda s, m, t: None
+
+    def on_message(self, sender, msg, t):
+        if id(msg) not in self._seen:
+            self._seen.add(id(msg))
+            self._on_handled(self.name, sender, msg)
+        return super().on_message(sender, msg, t)
 
 
 class Diverged(Exception):
@@ -72,6 +85,19 @@ class Driver:
         disc.subscribe_computation = lambda *a_, **k_: (st.point("sub"), o_sub(*a_, **k_))[1]
         drv = self
 
+        # Discovery.register_computation first records the computation (post_msg's lookup succeeds from then on) and then tests
+        # `computation in self._computation_cbs` before firing the callbacks: that test is the yield point between the model's
+        # RegData and RegFire steps (only the registering thread parks there: it is the only one allowed to)
+        import collections as _collections
+
+        class CbTable(_collections.defaultdict):
+            def __contains__(self_, k):
+                if str(getattr(st.local, "key", "")).startswith("reg_"):
+                    st.point("regfire")
+                return dict.__contains__(self_, k)
+        disc._computation_cbs = CbTable(getattr(disc._computation_cbs, "default_factory", None), disc._computation_cbs)
+        self.reg = {d: ("no" if d in self.late else "done") for d in self.dests}
+
         class Q(queue.PriorityQueue):
             def put(self, item, *a_, **k_):
                 r = super().put(item, *a_, **k_)
@@ -92,6 +118,9 @@ class Driver:
 
             class YLock:
                 def __enter__(self_):
+                    # (a post whose destination is known takes this lock only to look at the deferred list: that is the model's
+                    # Put step, and its yield point when the lock is taken; a thread that just deferred a message is at Fail)
+                    st.point("put")
                     st.point("fail")
                     if not inner.acquire(timeout=3):
                         # a parked thread holds the lock: the code no longer follows the model's steps; stop stepping
@@ -158,8 +187,10 @@ class Driver:
         if not self.a.is_running:       # the agent's thread has ended (real loop mode, after loop exit)
             return
         c = Rec(d, lambda name, s, m: self.handled.append(self.ids[id(m)]))
+        # the computation counts as started from the moment it exists: what an unstarted computation does with the messages it is
+        # handed (it keeps them and gets them re-injected when it starts) is the subject of C19, not of this check
+        c._running = True
         self.a.add_computation(c)
-        self.a.run(d)
 
     def queue_mids(self):
         return [self.ids[id(e[3].msg)] for e in sorted(self.a._messaging._queue.queue, key=lambda e: (e[0], e[1]))]
@@ -191,6 +222,23 @@ class Driver:
                 raise Diverged(str(ex))
         elif n == "register":
             self.register(a["d"])
+        elif n == "regdata":
+            d = a["d"]
+            if not self.a.is_running:
+                self.reg[d] = "data"
+            else:
+                self.st.spawn("reg_" + d, lambda: self.register(d), next_allowed={"regfire": set()}, first={"regfire"})
+                w = self.st.where("reg_" + d)
+                if w != ("parked", "regfire"):
+                    raise Diverged("the registering thread is at %r after recording the computation" % (w,))
+                self.reg[d] = "data"
+        elif n == "regfire":
+            d = a["d"]
+            if ("reg_" + d) in self.st.state:
+                w = self.st.advance("reg_" + d)
+                if w[0] != "done":
+                    raise Diverged("the registering thread did not finish: %r" % (w,))
+            self.reg[d] = "done"
         elif n == "next":
             self.fetch.append({"m": self.queue_mids()[0] if self.queue_mids() else -1,
                                "queued": [e[0] for e in self.a._messaging._queue.queue]})
@@ -258,14 +306,16 @@ class Driver:
         cbs = sorted(d for d in self.dests if any(True for _ in self.a.discovery._computation_cbs.get(d, [])))
         return {"pc": self.pcs(), "idx": [self.progress[p] for p in sorted(self.scripts)], "cbs": cbs, "known": self.known(), "failed": [self.ids[id(f[2])] for f in self.a._messaging._failed],
                 "queue": self.queue_mids(), "handled": list(self.handled), "shut": self.a._shutdown.is_set(), "exited": self.exited,
-                "apc": self.apc_now()}
+                "apc": self.apc_now(), "reg": {d: self.reg[d] for d in sorted(self.late)}}
 
     def all_posted(self):
         return all(self.st.where(p)[0] == "done" for p in self.scripts)
 
     def history(self, hid):
         msgs = [{"mid": 10 * p + i + 1, "p": p, "i": i + 1, "dest": d, "ty": ty} for p, sc in self.scripts.items() for i, (d, ty) in enumerate(sc)]
-        known = set(self.known())
+        # (a registration that has recorded the computation but not fired its callbacks yet is still in progress: what is deferred
+        # for that computation is not stuck, and the run is not settled)
+        known = {d for d in self.known() if self.reg.get(d, "done") == "done" or not any(str(k) == "reg_" + d and v[0] == "parked" for k, v in self.st.state.items())}
         failed = [self.ids[id(f[2])] for f in self.a._messaging._failed]
         stuck = [m for m, f in zip(failed, self.a._messaging._failed) if f[1] in known] if all(
             self.st.where(p)[0] == "done" or self.st.where(p)[1] == "begin" for p in self.scripts) and not self.a._shutdown.is_set() else []
@@ -283,7 +333,10 @@ class Driver:
                 self.st.mark_done("agent")
         else:
             try:
-                self.st.finish_all()
+                # (the agent's own loop never ends by itself: it is advanced below, as far as needed; a registration caught by the
+                # end of the agent's thread stays where it is - what Agent._on_stop does to it is outside the model)
+                over = self.real_loop and self.st.where("agent")[0] == "done"
+                self.st.finish_all(skip={"agent"} | ({k for k in self.st.state if str(k).startswith("reg_")} if over else set()))
             except RuntimeError:
                 self.st.free_run()
         for d in self.dests:
@@ -304,10 +357,30 @@ class Driver:
                 self.apply({"n": "next"})
 
     def close(self):
+        """no thread of this driver survives it (a free-running agent loop polls without waiting: it would burn a core)"""
         try:
-            if self.real_loop and self.st.where("agent")[0] == "parked":
+            # a registration still in flight is completed first (the agent is parked and not needed for it): letting it race with
+            # the end of the agent's thread - Agent._on_stop un-registers the computations - is outside the model, and the real
+            # code can then bounce a deferred message between post_msg and its registration callback for ever
+            for k in [k for k in self.st.state if str(k).startswith("reg_")]:
+                try:
+                    if self.st.where(k)[0] == "parked":
+                        self.st.advance(k)
+                except RuntimeError:
+                    pass
+            if self.real_loop:
                 self.a.stop()
-            self.st.finish_all()
+            with self.st.cv:
+                self.st.free = True
+                self.st.cv.notify_all()
+            for t in list(self.st.threads.values()) + ([self.a.t] if self.real_loop else []):
+                t.join(5)
+            import sys as _sys, traceback as _tb
+            self.leaked = []
+            for t in list(self.st.threads.values()) + ([self.a.t] if self.real_loop else []):
+                if t.is_alive():
+                    fr = _sys._current_frames().get(t.ident)
+                    self.leaked.append((t.name, "".join(_tb.format_stack(fr, limit=5))[-700:] if fr else "?"))
         except Exception:
             pass
 
@@ -336,22 +409,46 @@ def run(tier):
     v = Verdict("C18", tier, "model_checking")
     fixed = hasattr(__import__("pydcop.infrastructure.communication", fromlist=["Messaging"]).Messaging("probe", type("C", (), {"discovery": None})()), "_failed_lock")
     hist = []
+    cex_hist = []
     total_paths = total_steps = total_edges = 0
     for name in (["A", "B", "C"] if quick else ["A", "B", "C", "D"]):
         sc = SCRIPTS[name]
         import inspect
         from pydcop.infrastructure.agents import Agent as _Agent
         repoll = inspect.getsource(_Agent._run).count("next_msg(") >= 2
-        cfg = CFG % ("TRUE" if fixed else "FALSE", "TRUE" if repoll else "FALSE")
+        from pydcop.infrastructure.communication import Messaging as _Messaging
+        ordered = "if any(f[1] == dest_computation" in inspect.getsource(_Messaging.post_msg)
+        cfg = CFG % ("TRUE" if fixed else "FALSE", "TRUE" if repoll else "FALSE", "TRUE" if ordered else "FALSE")
         if not repoll:      # the unrepaired loop: the model itself loses messages queued between a timed-out poll and the shutdown test
             cfg = cfg.replace("INVARIANT ShutdownDrains\n", "")
         if not fixed:       # the unrepaired post_msg: the model itself has the stuck-deferral race; the real histories are judged below
             cfg = cfg.replace("INVARIANT NoStuckDeferred\n", "")
         g, res = RP.dump_edges("Messaging", cfg, consts={"Scripts": tla_scripts(sc)}, heap="6g")
         if res.violated:
-            raise MachineryError("Messaging.tla (scripts %s) violates %s in the model" % (name, res.violated))
+            # the model itself breaks an invariant: TLC's counterexample is replayed on the real agent with real threads stepped
+            # along it, and the real history is judged like every other one; if the real code does not show the violation the
+            # model is wrong (machinery failure), otherwise it is a defect of the code
+            acts = [st["act"] for st in (res.trace_json or [])[1:] if isinstance(st.get("act"), dict)]
+            if not acts:
+                raise MachineryError("Messaging.tla (scripts %s) violates %s and TLC gave no counterexample" % (name, res.violated))
+            v.add_tlc(res, "Messaging.tla (scripts %s: %s): invariant %s violated, counterexample of %d steps" % (name, sc, res.violated[0], len(acts)))
+            for real_loop in (False, True):
+                d = Driver(sc, real_loop=real_loop)
+                try:
+                    try:
+                        for a in acts:
+                            d.apply(a)
+                    except Diverged as ex:
+                        v.divergence("scripts %s counterexample to %s: %s" % (name, res.violated[0], ex))
+                        d.st.free_run()
+                    d.settle()
+                    cex_hist.append((len(hist), name, res.violated[0]))
+                    hist.append((d.history(len(hist)), {"scripts": name, "path": acts, "counterexample_to": res.violated[0]}))
+                finally:
+                    d.close()
+            continue
         v.add_tlc(res, "exhaustive model checking of Messaging.tla (scripts %s: %s) with invariants + labelled edge dump" % (name, sc))
-        init = {"pc": ["idle", "idle"], "idx": [1, 1], "cbs": [], "known": ["c1"], "failed": [], "queue": [], "handled": [], "shut": False, "exited": False, "apc": "poll"}
+        init = {"pc": ["idle", "idle"], "idx": [1, 1], "cbs": [], "known": ["c1"], "failed": [], "queue": [], "handled": [], "shut": False, "exited": False, "apc": "poll", "reg": {"c2": "no"}}
         paths = g.cover(init, max_len=40)
         if quick and len(paths) > 700:
             random.Random(seed()).shuffle(paths)
@@ -363,6 +460,7 @@ def run(tier):
                 break
             d = Driver(sc, real_loop=(pi % 2 == 1))
             diverged = False
+            _t0 = time.time()
             try:
                 for k, (a, exp) in enumerate(path):
                     try:
@@ -386,6 +484,8 @@ def run(tier):
                 hist.append((d.history(len(hist)), {"scripts": name, "path": [x[0] for x in path]}))
             finally:
                 d.close()
+                if time.time() - _t0 > 5:
+                    v.notes.append("slow replay (%.0f s): scripts %s path %d %s leaked %s" % (time.time() - _t0, name, pi, getattr(d, "trail", []), getattr(d, "leaked", None)))
         total_paths += len(paths)
     r = random.Random(seed() + 18)
     nfree = 0
@@ -406,6 +506,10 @@ def run(tier):
     verdicts = {x[0]["id"]: x[0]["bad"] for x in jres.tagged("VERDICT")}
     if len(verdicts) != len(hist):
         raise MachineryError("judge returned %d verdicts for %d histories" % (len(verdicts), len(hist)))
+    for hid, name, inv in cex_hist:
+        if not any(verdicts[hid] for hid2, n2, _ in cex_hist if n2 == name for hid in [hid2]):
+            raise MachineryError("Messaging.tla (scripts %s) violates %s but the real agent, stepped along TLC's counterexample, "
+                                 "shows no violation: the model is wrong" % (name, inv))
     for h, meta in hist:
         v.cov["evaluations"] += 1
         v.cov["traces_validated_against_impl"] += 1
